@@ -204,11 +204,19 @@ class Wrapf(util.WrapperMixin):
             ast = var.ast
             ntypemap = ast.typemap
             if ast.is_indirect():
-                append_format(output, "type(C_PTR) :: {variable_name}", var.fmtdict)
+                # An array of pointers keeps its shape.
+                shape = ""
+                if ast.array:
+                    shape = "(" + ",".join(
+                        todict.print_node(dim)
+                        for dim in reversed(ast.array)) + ")"
+                append_format(output, "type(C_PTR) :: {variable_name}" + shape, var.fmtdict)
                 self.set_f_module(fileinfo.module_use,
                                   "iso_c_binding", "C_PTR")
             else:
-                output.append(ast.gen_arg_as_fortran())
+                # A component of an interoperable type: the C kind
+                # (logical(C_BOOL)), no dummy argument attributes.
+                output.append(ast.gen_arg_as_fortran(bindc=True, local=True))
                 self.update_f_module(
                     fileinfo.module_use, {},
                     ntypemap.f_c_module or ntypemap.f_module
